@@ -76,21 +76,28 @@ Fixpoint yaml_import (y : ynode) (root : node) : node * bool :=
       (r, ok)
   end.
 
-(* vnaproperty_import_yaml_from_string / _from_file (after fix DP2): the existing content of the
-   root is deleted, then the document is imported *)
+(* vnaproperty_import_yaml_from_string / _from_file once the parser has delivered a document (after fixes
+   DP2 and DO90): the document is imported into a DETACHED, empty root (new_root = NULL); only when the
+   whole import has succeeded is the old content of *rootptr released (_vnaproperty_free_tree) and the new
+   tree installed.  A failed import frees the partial tree and leaves *rootptr as it was.  (Before DO90 the
+   old content was deleted first and the document imported into *rootptr itself: see
+   YamlFault.import_public_x_before_DO90 and the ..._refuted witnesses.) *)
 Definition import_document (y : ynode) (root : node) : node * bool :=
-  yaml_import y (fst (vdelete root dot)).
+  let '(r, ok) := yaml_import y NNull in
+  if ok then (r, true) else (root, false).
 
 (* The two public importers as coded (src/vnaproperty_import_yaml_from_file.c, _from_string.c; their
    bodies differ only in how the parser gets its input).  [yload] is what yaml_parser_load and
    yaml_document_get_root_node deliver:
      YSyntaxError     yaml_parser_load failed: error callback, return -1; *rootptr has not been touched
      YEmptyDocument   no root node ("empty YAML document"): error callback, return -1; *rootptr not touched
-     YDocument y      vnaproperty_delete(rootptr, ".") - the old content is released whatever the document
-                      is, the plain null "~" included - then _vnaproperty_yaml_import(y) into the now empty
-                      root; if that fails half way (a key that is not a descriptor), -1 is returned and
-                      *rootptr keeps the part imported so far: the old content is gone in every case.
-   Result: the node left in *rootptr and success (return value 0). *)
+     YDocument y      _vnaproperty_yaml_import(y) into a detached empty root; on success the old content
+                      is released - whatever the document is, the plain null "~" included - and the new
+                      tree installed; if the import fails half way (a key that is not a descriptor), -1
+                      is returned and *rootptr is exactly what it was.
+   Result: the node left in *rootptr and success (return value 0).  Alias cycles and allocation
+   failures are in the extended model YamlFault.v (import_public_x), which agrees with this one on
+   alias-free documents without allocation failure (YamlFaultProofs.import_public_x_embed). *)
 Inductive yload := YSyntaxError | YEmptyDocument | YDocument (y : ynode).
 
 Definition import_public (l : yload) (root : node) : node * bool :=
